@@ -1,5 +1,5 @@
 import FlexModel.Proto
-import FlexModel.Net.Flood
+import FlexModel.Net.Mesh
 namespace FlexModel.Net
 open FlexModel.Proto
 
@@ -7,6 +7,12 @@ structure NetState where
   sts : List Station := []
   inside : List (Area × Addr) := []
   down : List Addr := []
+  links : List (Addr × Addr) := []   -- when non-empty: only linked pairs are in radio range of each other
+  ringL : Nat := 8                   -- itsGnDPLLength
+  snMod : Nat := 65535               -- get_sequence_number: (sn + 1) % (2**16 - 1)
+  plain : Bool := false              -- true: the semantics of the theorems (unbounded duplicate memory and SNs)
+  air : List (Addr × Pkt) := []      -- pairs still in the air (only between `reqq` … `drain`)
+  mark : List Station := []          -- station states at the first `reqq` of a burst (baseline of `drain`'s report)
 
 def hexDigit (n : Nat) : Char := if n < 10 then Char.ofNat (48 + n) else Char.ofNat (87 + n)
 def hexOf (b : Bytes) : String :=
@@ -49,6 +55,31 @@ def newsOf (before after : List Station) : String :=
 
 def world (st : NetState) : World := { inside := fun a x => st.inside.contains (a, x) }
 
+def reachOf (st : NetState) : Addr → Addr → Bool := fun a b =>
+  !st.down.contains a && !st.down.contains b &&
+    (st.links.isEmpty || st.links.contains (a, b) || st.links.contains (b, a))
+
+def semOf (st : NetState) : Sem := if st.plain then plainSem (world st) else ringSem (world st) st.ringL st.snMod
+
+/-- run one event and then a complete (seeded) delivery schedule on the mesh of the current stations -/
+def meshOf (st : NetState) : Mesh := { Mesh.ofList st.sts with air := st.air }
+
+def runEv (st : NetState) (first : Mesh → Mesh) (seed : Nat) : NetState × String :=
+  let d := drain (semOf st) (reachOf st) 200000 seed (first (meshOf st))
+  let sts' := d.1.toList
+  let base := if st.mark.isEmpty then st.sts else st.mark
+  ({ st with sts := sts', air := d.1.air, mark := [] },
+   newsOf base sts' ++ (if d.1.air.isEmpty then "" else " !fuel"))
+
+/-- hand a request to a station without delivering anything yet (bursts: several requests in the air together) -/
+def queueEv (st : NetState) (first : Mesh → Mesh) : NetState × String :=
+  let m := first (meshOf st)
+  ({ st with sts := m.toList, air := m.air, mark := if st.mark.isEmpty then st.sts else st.mark }, "ok")
+
+def reqOf (btpB dport info : Nat) (pl : Bytes) (tp : Transport) (hl blocked : Nat) : Req :=
+  { btpB := btpB != 0, dport := dport, info := info, payload := pl, transport := tp, hopLimit := hl,
+    scfBlocked := blocked != 0 }
+
 def netStep (st : NetState) (t : List String) : NetState × String :=
   match t with
   | ["reset"] => ({}, "ok")
@@ -62,17 +93,41 @@ def netStep (st : NetState) (t : List String) : NetState × String :=
     match nat? ar, nat? a with
     | some ar, some a => ({ st with inside := (ar, a) :: st.inside }, "ok")
     | _, _ => (st, "bad-op")
-  | ["req", i, btpB, dport, info, hex, tr, arg, hl, blocked] =>
-    match nat? i, nat? btpB, nat? dport, nat? info, parseHex hex, nat? arg, nat? hl, nat? blocked with
-    | some i, some btpB, some dport, some info, some pl, some arg, some hl, some blocked =>
+  | ["link", a, b] =>
+    match nat? a, nat? b with
+    | some a, some b => ({ st with links := (a, b) :: st.links }, "ok")
+    | _, _ => (st, "bad-op")
+  | ["sem", "plain"] => ({ st with plain := true }, "ok")
+  | ["sem", "ring", l, m] =>
+    match nat? l, nat? m with
+    | some l, some m => ({ st with plain := false, ringL := l, snMod := m }, "ok")
+    | _, _ => (st, "bad-op")
+  | ["setsn", a, n] =>
+    match nat? a, nat? n with
+    | some a, some n => ({ st with sts := st.sts.map (fun s => if s.addr = a then { s with sn := n } else s) }, "ok")
+    | _, _ => (st, "bad-op")
+  | ["req", i, btpB, dport, info, hex, tr, arg, hl, blocked, seed] =>
+    match nat? i, nat? btpB, nat? dport, nat? info, parseHex hex, nat? arg, nat? hl, nat? blocked, nat? seed with
+    | some i, some btpB, some dport, some info, some pl, some arg, some hl, some blocked, some seed =>
       match transport? tr arg with
       | none => (st, "bad-op")
       | some tp =>
         let r : Req := { btpB := btpB != 0, dport := dport, info := info, payload := pl, transport := tp,
                          hopLimit := hl, scfBlocked := blocked != 0 }
-        let sts' := netRequest (world st) st.down st.sts i r
-        ({ st with sts := sts' }, newsOf st.sts sts')
+        runEv st (fun m => m.stepG (semOf st) (reachOf st) (.req i r)) seed
+    | _, _, _, _, _, _, _, _, _ => (st, "bad-op")
+  | ["reqq", i, btpB, dport, info, hex, tr, arg, hl, blocked] =>
+    match nat? i, nat? btpB, nat? dport, nat? info, parseHex hex, nat? arg, nat? hl, nat? blocked with
+    | some i, some btpB, some dport, some info, some pl, some arg, some hl, some blocked =>
+      match transport? tr arg with
+      | none => (st, "bad-op")
+      | some tp =>
+        queueEv st (fun m => m.stepG (semOf st) (reachOf st) (.req i (reqOf btpB dport info pl tp hl blocked)))
     | _, _, _, _, _, _, _, _ => (st, "bad-op")
+  | ["drain", seed] =>
+    match nat? seed with
+    | some seed => runEv st id seed
+    | none => (st, "bad-op")
   | ["down", a] =>
     match nat? a with
     | some a => ({ st with down := a :: st.down }, "ok")
@@ -81,12 +136,11 @@ def netStep (st : NetState) (t : List String) : NetState × String :=
     match nat? a with
     | some a => ({ st with down := st.down.filter (· ≠ a) }, "ok")
     | none => (st, "bad-op")
-  | ["lsretx", i, de] =>
-    match nat? i, nat? de with
-    | some i, some de =>
-      let sts' := netRetransmit (world st) st.down st.sts i de
-      ({ st with sts := sts' }, newsOf st.sts sts')
-    | _, _ => (st, "bad-op")
+  | ["lsretx", i, de, seed] =>
+    match nat? i, nat? de, nat? seed with
+    | some i, some de, some seed =>
+      runEv st (fun m => m.retx (if st.plain then 0 else st.snMod) (reachOf st) i de) seed
+    | _, _, _ => (st, "bad-op")
   | _ => (st, "bad-op")
 
 def netDomain : Domain := { σ := NetState, init := {}, step := netStep }
